@@ -15,6 +15,12 @@ CLAIMED = {
  "C03": dict(cat="model_checking", ref="DESIGN.md 6 (C03)",
    text="PageStore readers configuration model-checked (ReaderPinned, ReaderIntact); Gen_Readers enumerates every single-threaded interleaving of opening/closing up to k readers with committing / rolling-back writers, replayed on the real code with every open reader re-read in full after every step; release bounds / allocations / overwrites of the same runs and of random multi-reader histories validated by Trace_Page against the readers that are really open.",
    note=L1NOTE, tech="TLA+ L0+L1 specs + TLC; exhaustive interleaving replay; trace validation"),
+ "C04": dict(cat="model_checking", ref="DESIGN.md 6 (C04), 3.3, 4.5",
+   text="Threads.tla (Tx::new / commit / resize / drop split at the yield hook points, five locks, release and allocation rules) model-checked without preemption bound: ReaderSafe, ReadsStable, Freshness; the pinned registration order violates ReaderSafe (vacuity guard). Gen_Threads enumerates all schedules with <= k preemptions of 1-2 readers against chains of page-reusing commits; each is forced on real threads parked at the hook points and the harness checks what every reader saw; seeded random schedules beyond the bound.",
+   note="Trusted: TLC; transcription of the code into Threads.tla; schedules quantified at yield points only; harness-side observations.", tech="TLA+ L2 spec + TLC; TLC-generated schedules forced on real threads"),
+ "C09": dict(cat="model_checking", ref="DESIGN.md 6 (C09), 3.3, 4.5",
+   text="Threads.tla model-checked: OneWriter, NoLostUpdate, FinalCount, ReaderNotBlockedByWriter, deadlock freedom, and Progress under weak fairness. Bounded-preemption schedules of 2-3 read-modify-write writer threads with readers (incl. a commit that grows the file) are forced on real threads: overlap flag, final counter, every thread finishes, a thread the model says can proceed must not stay blocked; seeded random schedules beyond the bound.",
+   note="Trusted: as C04; std RwLock modelled as writer-preferring; deadlock = a thread not finished 10 s after the schedule / blocked 2 s although enabled.", tech="TLA+ L2 spec + TLC (safety + liveness); TLC-generated schedules forced on real threads"),
  "C05": dict(cat="model_checking", ref="DESIGN.md 6 (C05), 4.3",
    text="Every page image the library writes is decoded by an independent parser and TLC (Trace_Page) evaluates the structural and accounting predicates at every header write, cross-checks the final file, and DB::check() must agree; histories are TLC-generated (nested bucket deletions at several levels in one transaction, merges/splits on three-level trees) and random.",
    note=L1NOTE, tech="TLA+ predicates over decoded pages evaluated by TLC on recorded executions"),
